@@ -35,6 +35,7 @@ type Parsed struct {
 	FileCRC    uint16
 	Defs       []*ParsedDef
 	Recs       []*ParsedRec
+	Oddities   []string // accepted by the grammar, but not something an encoder may emit
 }
 
 // Parse checks b against the FIT file grammar: exactly one file, nothing after it.
@@ -140,8 +141,12 @@ func ParseOne(b []byte) (*Parsed, int, error) {
 				if (fd.Base&0x80 != 0) != (bs > 1) {
 					return p, 0, fmt.Errorf("definition at %d: field %d base type %#02x has a wrong endian-ability flag", start, fd.Num, fd.Base)
 				}
-				if fd.Size == 0 || int(fd.Size)%bs != 0 {
-					return p, 0, fmt.Errorf("definition at %d: field %d size %d is not a positive multiple of base size %d", start, fd.Num, fd.Size, bs)
+				if int(fd.Size)%bs != 0 {
+					return p, 0, fmt.Errorf("definition at %d: field %d size %d is not a multiple of base size %d", start, fd.Num, fd.Size, bs)
+				}
+				if fd.Size == 0 {
+					// legal for a reader to skip, but a writer must never produce it
+					p.Oddities = append(p.Oddities, fmt.Sprintf("definition at %d: field %d has size 0", start, fd.Num))
 				}
 				if seen[fd.Num] {
 					return p, 0, fmt.Errorf("definition at %d: field number %d appears twice", start, fd.Num)
